@@ -15,6 +15,7 @@ type C05Case struct {
 	W        *World
 	Exposure bool
 	ViaInfos bool
+	Focus    string `json:",omitempty"`
 }
 
 // stressPorts appends rules whose union is (or is nearly) the full set, spelled in non-canonical ways.
@@ -84,13 +85,23 @@ func genC05(t *rapid.T) *C05Case {
 		stressIPs(t, c.W)
 	}
 	c.ViaInfos = rapid.IntRange(0, 3).Draw(t, "viainfos") == 0
+	if rapid.IntRange(0, 4).Draw(t, "focus") == 0 && len(c.W.Workloads) > 0 {
+		wl := c.W.Workloads[rapid.IntRange(0, len(c.W.Workloads)-1).Draw(t, "fw")]
+		c.Focus = wl.Name
+		if rapid.Bool().Draw(t, "fwns") {
+			c.Focus = wl.Ns + "/" + wl.Name
+		}
+	}
 	return c
 }
 
 func checkC05(c *C05Case, st *VStats) *VFailure {
 	dir := c.W.WriteDir()
 	defer os.RemoveAll(dir)
-	res := RunList(dir, ListOpts{Exposure: c.Exposure, ViaInfos: c.ViaInfos})
+	res := RunList(dir, ListOpts{Exposure: c.Exposure, ViaInfos: c.ViaInfos, Focus: c.Focus})
+	if c.Focus != "" {
+		st.Class("with focus workload")
+	}
 	if res.Panic != nil {
 		return &VFailure{Msg: fmt.Sprintf("list panicked: %v", res.Panic), Sig: "panic"}
 	}
